@@ -362,11 +362,33 @@ b("w3c-prefix-casefold", "C20", W3C, "return bool(NCNAME_RE.fullmatch(prefix))",
 
 def ts(id, props, seed, file, old, new, note=""):
     """A seeded "refactoring with a slip" with the slip repaired: the refactoring itself must stay silent."""
-    V.append(Variant(id, tuple(props.split()), "benign", file, old, new, (), note, "seeded/" + seed))
+    V.append(Variant(id, tuple(props.split()), "repaired", file, old, new, (), note, "seeded/" + seed))
 
 
 # ------------------------------------------------------------------------------------- round-5 seeds with the slip repaired (benign twins)
 ts("fixed-jsonld-helper-comp", "C13 C14 C04", "C14-m14", API, "            and (uri_prefix := _get_jsonld_uri_prefix(value))\n", "            and (uri_prefix := _get_jsonld_uri_prefix(value)) is not None\n", "dict comprehension + helper with the None-test restored")
+
+ts("fixed-w3c-positional", "C20", "C20-m12", W3C, "    return _is_w3c_luid(curie, colon)\n", "    return _is_w3c_luid(curie, colon + 1)\n", "in-place matching with the right start position")
+ts("fixed-w3c-tables", "C20", "C20-m14", W3C, "_NCNAME_START_CHARS = _NCNAME_CHARS - frozenset(string.digits)", "_NCNAME_START_CHARS = _NCNAME_CHARS - frozenset(string.digits + \".-\")", "character tables with the right start table")
+ts("fixed-q-default-in-sort", "C18", "C18-m13", MSU, "parts[key] or DEFAULT_WEIGHT", "DEFAULT_WEIGHT if parts[key] is None else parts[key]", "default weight applied with a None test")
+ts("fixed-triples-flat", "C18", "C18-m14", MSA, "subj_query == obj_query:", "(subj_query is None) == (obj_query is None):", "flattened triples with the right binding test")
+ts("fixed-shacl-generator", "C14", "C14-m13", API, "    pattern = \"\"\n    for record in converter.records:\n", "    for record in converter.records:\n        pattern = \"\"\n", "pattern reset per record")
+ts("fixed-ensure-records", "C13 C04", "C13-m12", API, "    if all(isinstance(record, Record) for record in records):\n        # nothing to convert\n        return list(records)\n", "", "helper without the consuming fast path")
+ts("fixed-chain-pipeline", "C09 C10", "C09-m13", API, "    records = sorted(\n        itt.chain.from_iterable(converter.records for converter in converters),\n        key=lambda r: r.prefix,\n    )\n", "    records = itt.chain.from_iterable(converter.records for converter in converters)\n", "pipeline without the sort")
+ts("fixed-is-curie-direct", "C07", "C07-m14", API, "s.rpartition(self.delimiter)", "s.partition(self.delimiter)", "direct prefix test at the first delimiter")
+ts("fixed-is-uri-startswith", "C07 C01", "C07-m13", API, "tuple(self.reverse_bimap)", "tuple(self.reverse_prefix_map)", "prefix test against the full reverse table")
+ts("fixed-parse-curie-find", "C03 C02", "C03-m13", API, "curie[index + 1 :]", "curie[index + len(self.delimiter) :]", "find + slice with the delimiter's length")
+ts("fixed-subconverter-fallback", "C10 C09", "C10-m12", API, "records.setdefault(record.prefix, record)", "records.setdefault(record.prefix, record.model_copy(deep=True))", "fallback loop that copies")
+ts("fixed-cutoff-loop", "C19", "C19-m14", DISC, "        for uri_prefix in uri_prefixes:\n", "        for uri_prefix in list(uri_prefixes):\n", "removal while iterating a copy")
+ts("fixed-write-table", "C16", "C16-m12", API, "_write_table(path, rows, header=_header)", "_write_table(path, rows, header=_header, delimiter=delimiter)", "shared writer with the delimiter forwarded")
+ts("fixed-tuple-split", "C15", "C15-m14", API, "prefix, identifier = curie.split(sep)", "prefix, identifier = curie.split(sep, 1)", "inline split with maxsplit")
+ts("fixed-resolver-removeprefix", "C17", "C17-m14", RES, "curie.lstrip(prefix + delimiter)", "curie.removeprefix(prefix + delimiter)", "removeprefix instead of lstrip")
+ts("fixed-subconverter-index", "C02 C09", "C02-m14", API, "self.get_prefixes().intersection(prefixes)", "self.get_prefixes(include_synonyms=True).intersection(prefixes)", "index-based selection including synonyms")
+ts("fixed-remap-known", "C11", "C11-m14", REC, "known = converter.get_prefixes()", "known = converter.get_prefixes(include_synonyms=True)", "hoisted unknown-old filter including synonyms")
+ts("fixed-remap-owner", "C11", "C11-m13", REC, "owner.prefix != old:", "owner.prefix != _old:", "clash test against the canonical old prefix")
+ts("fixed-reverse-groupby", "C04 C13", "C04-m12", API, "                _prepare(reverse_prefix_map).items(), key=operator.itemgetter(1)\n", "                sorted(_prepare(reverse_prefix_map).items(), key=operator.itemgetter(1)), key=operator.itemgetter(1)\n", "groupby over the sorted items")
+ts("fixed-duplicates-groupby", "C04 C06 C02", "C06-m14", API, "    for value, group in itt.groupby(pairs, key=lambda pair: pair[0]):", "    for value, group in itt.groupby(sorted(pairs), key=lambda pair: pair[0]):", "single-pass duplicate detection over sorted pairs")
+ts("fixed-discover-mask", "C19", "C19-m13", DISC, "for luids in uri_prefix_to_luids.values())", "for luids in map(uri_prefix_to_luids.__getitem__, uri_prefixes))", "mask aligned with the sorted names")
 
 # ------------------------------------------------------------------------------------- slips made while refactoring (round 4)
 bs("slip-lookup-helper-order", "C12", "C12-r16", REC, "for s in chain((preferred,), synonyms):", "for s in chain(synonyms, (preferred,)):", "C12-D5", "shared lookup helper consults synonyms first")
@@ -553,7 +575,7 @@ def _run_one(args):
     if src is None or v.old not in src:
         return {"id": v.id, "kind": v.kind, "props": list(v.props), "status": "not-applicable", "detail": "anchor text not present in the current tree"}
     new_files = dict(files)
-    new_files[v.file] = src.replace(v.old, v.new, 1)
+    new_files[v.file] = src.replace(v.old, v.new) if v.kind == "repaired" else src.replace(v.old, v.new, 1)
     try:
         model = Model(new_files)
     except AnalysisError as e:
@@ -570,6 +592,17 @@ def _run_one(args):
             if want and not any(st.get(e) == "VIOLATED" for e in want):
                 met = False
                 out.setdefault("unmet", []).append(f"{p}: expected one of {want} VIOLATED, got { {k: s for k, s in st.items() if s != 'HOLDS'} }")
+        elif v.kind == "repaired":
+            # a seeded refactoring-with-a-slip, slip repaired: like any refactoring it must not be VIOLATED;
+            # UNDECIDED is recorded
+            bad = {k: s for k, s in st.items() if s == "VIOLATED"}
+            und = {k: s for k, s in st.items() if s == "UNDECIDED"}
+            if und:
+                out.setdefault("undecided", {}).update(und)
+            if bad:
+                met = False
+                findings = [f"{f.key}: {f.message[:80]}" for o in obs for f in o.findings]
+                out.setdefault("unmet", []).append(f"{p}: false alarm on a repaired refactoring: {bad} {findings[:3]}")
         else:
             bad = {k: s for k, s in st.items() if s != "HOLDS"}
             if bad:
@@ -616,6 +649,8 @@ def run_matrix(prop: str | None, jobs: int | None = None):
             "variants_total": len(results),
             "breaking": sum(1 for r in results if r["kind"] == "breaking"),
             "benign_twins": sum(1 for r in results if r["kind"] == "benign"),
+            "repaired_seeds": sum(1 for r in results if r["kind"] == "repaired"),
+            "repaired_seeds_undecided": sorted(r["id"] for r in results if r["kind"] == "repaired" and r.get("undecided")),
             "refactorings": sum(1 for r in results if r["kind"] == "refactoring"),
             "refactorings_undecided": sorted(r["id"] for r in results if r["kind"] == "refactoring" and r.get("obligations", {}).get("undecided")),
             "met": sum(1 for r in results if r["status"] == "met"),
